@@ -151,6 +151,10 @@ def run_property(prop: str, tier: str = "quick", replay: Optional[str] = None, t
                           "instances": res.instances, "source_hash": eng.repo.functions[q].source_hash()
                           if q in eng.repo.functions else None})
         paths += res.paths
+        if res.normal_paths == 0 and not getattr(c.impl, "never_returns", False) and not res.limits:
+            limits.append("%s: no path of the function reaches a normal return (vacuous verification?)" % q)
+        functions[-1]["normal_return_paths"] = res.normal_paths
+        functions[-1]["raising_paths"] = res.raising_paths
         all_obs.extend(res.obligations)
         limits.extend("%s: %s" % (q, l) for l in res.limits)
         # vacuity guard: the assumptions at function entry must be satisfiable
@@ -208,6 +212,16 @@ def run_property(prop: str, tier: str = "quick", replay: Optional[str] = None, t
         ev, distinct, native_failures, samples = suite.run(REG, seed, budget)
         native_info = {"evaluations": ev, "distinct_nontrivial": distinct, "failures": len(native_failures),
                        "samples": samples, "bound": "seeded random small-scope inputs, %d per contract" % budget}
+
+    # functions the engine could not decide: escalate the native search on them before giving up
+    if suite is not None and limits:
+        undecided_fns = sorted(set(l.split(":")[0] for l in limits))
+        for fnq in undecided_fns:
+            ev2, d2, fails2, _ = suite.run(REG, seed + 1, 3000 if tier == "quick" else 30000, only=fnq)
+            if native_info is not None:
+                native_info["evaluations"] += ev2
+                native_info["escalated_for"] = undecided_fns
+            native_failures.extend(fails2[:1])
 
     # ledger: obligations that were discharged on the pinned tree
     ledger_path = os.path.join(LEDGER_DIR, "%s.json" % prop)
